@@ -486,6 +486,9 @@ def run_c20(ctx):
         ctx.count('typed:literals x 12 targets compared across builds', len(typed_in))
         from checks import ntarget
         ctx.violations += ntarget.judge_number_target(ctx, cfg, 1500 if ctx.tier == 'quick' else 8000)
+        # typed targets reading non-canonical spellings out of a Value (owned and by reference) must agree with the text route, as without the feature
+        from checks import fv
+        ctx.violations += fv.judge_cases(ctx, cfg, fv.ap_spelling_cases())
     for d in (lits[3], lits[len(lits) // 2], miss[1000], canon[0], free[-1]):
         ctx.sample({'input': d.decode('utf-8', 'replace')[:200], 'input_hex': hx(d)[:400]})
 
